@@ -22,7 +22,7 @@ from typing_extensions import NotRequired, TypedDict
 
 __all__ = [
     "TDk",
-    "Rev", "Fwd", "IntKeyed", "LS", "KT", "VT", "FSub", "ISub", "Pops", "T_co", "ANYTHING", "SENTINEL", "NAN",
+    "Rev", "Fwd", "IntKeyed", "LS", "KT", "VT", "FSub", "ISub", "Pops", "T_co", "ANYTHING", "SENTINEL", "NAN", "Perm",
     "kwmap_int", "kwmap_str", "seq_int", "seq_str",
     "A", "B", "C", "D", "G", "E", "IE", "N", "TD", "TDp", "TDn", "HasX", "SupportsClose",
     "Suppress", "NoSuppress", "cond", "call", "use", "ident", "first", "pair", "apply_fn",
@@ -74,6 +74,14 @@ class E(enum.Enum):
 class IE(enum.IntEnum):
     p = 1
     q = 2
+
+
+class Perm(enum.Flag):
+    """Members combine: Perm.R | Perm.W is a Perm that is none of the three named members."""
+
+    R = 1
+    W = 2
+    X = 4
 
 
 N = NewType("N", int)
